@@ -55,9 +55,13 @@ def one_case(ctx, rng, i):
     for n in ("R", "nu", "alpha"):
         if n in p0:
             p0[n].set(vary=False)
-    mode = rng.choice(["free", "free", "cp-fixed", "cp-bounded", "baseline-fixed"])
+    mode = rng.choice(["free", "free", "cp-fixed", "cp-bounded", "baseline-fixed", "cp-fixed-with-limits"])
     if mode == "cp-fixed":
         p0["contact_point"].set(value=cp, vary=False)
+    elif mode == "cp-fixed-with-limits":
+        # a fixed contact point that still carries finite limits (in measured units, like its value)
+        wlim = max(1e-8, 0.2 * abs(cp))
+        p0["contact_point"].set(value=cp, vary=False, min=cp - wlim, max=cp + wlim)
     elif mode == "cp-bounded":
         # Bounds on the contact point are applied by nanite to the k-corrected value (they are not part of
         # the property's quantifier); choose them so that they contain the contact point in measured AND in
@@ -129,6 +133,13 @@ def run(ctx):
             continue
         f1, fk = i1.fit_properties, ik.fit_properties
         if meta["plateau"]:
+            # the scanned depths are measured depths: the same for every k
+            g1_, gk_ = np.asarray(f1["optimal_fit_delta_array"]), np.asarray(fk["optimal_fit_delta_array"])
+            if g1_.shape != gk_.shape or not np.allclose(g1_, gk_, rtol=1e-12, atol=0):
+                ctx.violation("plateau-scan-depths-depend-on-k",
+                              f"the depths scanned by the plateau search differ between k=1 ({g1_[:3]}...) and "
+                              f"k={meta['k']} ({gk_[:3]}...)", rep)
+                continue
             g = np.asarray(f1["optimal_fit_delta_array"])
             if abs(f1["optimal_fit_delta"] - fk["optimal_fit_delta"]) > abs(g[1] - g[0]) * 1e-6:
                 # the two scans selected different plateaus (decided by the smoothed modulus curve, a
